@@ -7,7 +7,8 @@
    [tprod] = the Kronecker product  Y[i,t] = sum_j prod_k B_k[i_k,j_k] X[j,t];
    tensors have any number of leading tensor-product axes and any trailing (component) axes. *)
 From Coq Require Import QArith Qcanon List Arith.
-From Verif.C17 Require Import Model Spec Proofs.
+From Verif.lib Require Import Bsp.
+From Verif.C17 Require Import Model Spec Proofs ProofsGrev.
 Import ListNotations.
 Open Scope Qc_scope.
 
@@ -105,12 +106,108 @@ Theorem l2_kron_reproduces : forall shape Ss Cts Ds Cs c idx,
 Proof. exact l2_kron_reproduces_l. Qed.
 Print Assumptions l2_kron_reproduces.
 
+(* ---- both operators are projections ---------------------------------------------------- *)
+
+(* Interpolating the interpolant gives the same coefficients: I E I = I (S_k C_k = I) ... *)
+Theorem interp_is_projection : forall shape Ss Cs rhs idx,
+  length Ss = length Cs -> Forall2 is_id shape (mul_list Ss Cs) ->
+  inrange shape idx -> (length Ss <= length idx)%nat ->
+  tprod_loop Ss (tprod Cs (tprod_loop Ss rhs)) idx = tprod_loop Ss rhs idx.
+Proof. exact interp_is_projection_l. Qed.
+Print Assumptions interp_is_projection.
+
+(* ... and in nodal values E I E = E (C_k S_k = I). *)
+Theorem interp_values_projection : forall nshape Cs Ss c idx,
+  length Cs = length Ss -> Forall2 is_id nshape (mul_list Cs Ss) ->
+  inrange nshape idx -> (length Ss <= length idx)%nat ->
+  tprod Cs (tprod_loop Ss (tprod Cs c)) idx = tprod Cs c idx.
+Proof. exact interp_values_projection_l. Qed.
+Print Assumptions interp_values_projection.
+
+(* The discrete (geometry weighted) L2 projection P f = spl (sol (load f)), for ANY exact solver
+   sol of the mass matrix, positive weights and a basis unisolvent on the quadrature points:
+   it returns the coefficients of a function of the space, fixes every function of the space,
+   and P (P f) = P f for every f. *)
+Theorem l2_projection_is_projection : forall N Q Cq w sol,
+  (forall b i, (i < N)%nat -> mv N (massq Q Cq w) (sol b) i = b i) ->
+  (forall q, (q < Q)%nat -> 0 < w q) ->
+  (forall y, (forall q, (q < Q)%nat -> spl N Cq y q = 0) -> forall i, (i < N)%nat -> y i = 0) ->
+  (forall c i, (i < N)%nat -> sol (loadq Q Cq w (spl N Cq c)) i = c i) /\
+  (forall c q, l2proj N Q Cq w sol (spl N Cq c) q = spl N Cq c q) /\
+  (forall f q, l2proj N Q Cq w sol (l2proj N Q Cq w sol f) q = l2proj N Q Cq w sol f q).
+Proof. exact l2_projection_is_projection_l. Qed.
+Print Assumptions l2_projection_is_projection.
+
+(* ---- the default nodes ------------------------------------------------------------------ *)
+(* greville = C19's transcription of KnotVector.greville; collocation = rows of Bsp.colloc_row *)
+
+(* Schoenberg-Whitney NECESSARY condition holds for the Greville points of every open knot vector
+   of degree >= 1: the diagonal of the collocation matrix is strictly positive (built on C19's
+   greville_in_support / greville_diag_pos and C02's colloc_row_values). *)
+Theorem greville_satisfies_sw_necessary : forall kv p i,
+  (1 <= p)%nat -> open_kv kv p = true -> (i < numdofs kv p)%nat ->
+  0 < mget (collocation kv p (greville kv p)) i i.
+Proof. exact greville_sw_necessary_l. Qed.
+Print Assumptions greville_satisfies_sw_necessary.
+
+(* Unisolvence for degree 0 and 1: on every open knot vector the collocation matrix at the Greville
+   points is the identity matrix (so interpolation there is the identity on the data). *)
+Theorem greville_unisolvent_p01 : forall kv p i j,
+  (p <= 1)%nat -> open_kv kv p = true -> (i < numdofs kv p)%nat -> (j < numdofs kv p)%nat ->
+  mget (collocation kv p (greville kv p)) i j = delta i j.
+Proof. exact greville_unisolvent_p01_l. Qed.
+Print Assumptions greville_unisolvent_p01.
+
+(* ... hence the solver contract assumed by interp_reproduces / interp_matches_nodes is met
+   (by the exact solve of an identity system) for degree <= 1. *)
+Theorem greville_p01_solver_contract : forall kv p S,
+  (p <= 1)%nat -> open_kv kv p = true -> is_id (numdofs kv p) S ->
+  let C := op_of_mat (collocation kv p (greville kv p)) in
+  is_id (numdofs kv p) (mul S C) /\ is_id (numdofs kv p) (mul C S).
+Proof. exact greville_p01_contract. Qed.
+Print Assumptions greville_p01_solver_contract.
+
+(* ---- hierarchical spaces ------------------------------------------------------------------ *)
+(* P = representation of the N hierarchical (HB or THB) functions in the Nf tensor-product functions
+   of the finest level (hs.represent_fine); Cf = fine collocation at the quadrature points.
+   galerkin = P^T M_f P is the matrix C03.hassemble_galerkin shows assemble_matrix to be (nested exact
+   quadratures); restrict b = P^T b.  The sampled hierarchical basis Ch = Cf P makes the discrete L2
+   setting above exactly this Galerkin restriction: *)
+Theorem hspace_gram_is_galerkin : forall Nf Q Cf P w i j,
+  massq Q (Ch Nf Cf P) w i j = galerkin Nf Q Cf P w i j.
+Proof. exact hs_mass. Qed.
+Print Assumptions hspace_gram_is_galerkin.
+
+Theorem hspace_load_is_restriction : forall Nf Q Cf P w f i,
+  loadq Q (Ch Nf Cf P) w f i = restrict Nf P (loadq Q Cf w f) i.
+Proof. exact hs_load. Qed.
+Print Assumptions hspace_load_is_restriction.
+
+(* L2 projection into a hierarchical space reproduces the functions of the space and has an
+   orthogonal residual WHENEVER the solved system is (P^T M_f P) x = P^T b_f. *)
+Theorem hspace_l2_reproduces_partial : forall Nf N Q Cf P w c x,
+  (forall y, (forall i, (i < N)%nat -> mv N (galerkin Nf Q Cf P w) y i = 0) -> forall i, (i < N)%nat -> y i = 0) ->
+  (forall i, (i < N)%nat -> mv N (galerkin Nf Q Cf P w) x i = restrict Nf P (loadq Q Cf w (spl N (Ch Nf Cf P) c)) i) ->
+  forall i, (i < N)%nat -> x i = c i.
+Proof. exact hspace_l2_reproduces_l. Qed.
+Print Assumptions hspace_l2_reproduces_partial.
+
+Theorem hspace_l2_orthogonal_partial : forall Nf N Q Cf P w f x,
+  (forall i, (i < N)%nat -> mv N (galerkin Nf Q Cf P w) x i = restrict Nf P (loadq Q Cf w f) i) ->
+  forall i, (i < N)%nat -> sumn Q (fun q => Ch Nf Cf P q i * w q * (f q - spl N (Ch Nf Cf P) x q)) = 0.
+Proof. exact hspace_l2_orthogonal_l. Qed.
+Print Assumptions hspace_l2_orthogonal_partial.
+(* NOT PROVED for the two _partial theorems: that the vector _hdiscr.assemble_functional returns IS
+   P^T b_f.  C03.functional_entry proves it is, entry by entry, the load vector of each function's OWN
+   level; that equals P^T b_f only when the own-level quadrature integrates data x basis function
+   exactly (data polynomial on every cell of that level), and is false for data with finer-level
+   kinks -- the open finding impl:hspace:load-vector-own-level-quadrature. *)
+
 (* NOT PROVED (kept as statements only):
-   - hspace_l2_reproduces at the level of the assembled hierarchical load vector: the theorem
-     above covers it only under the hypothesis that the load vector IS loadq (all inner
-     products exact); _hdiscr.assemble_functional integrates each active function with the
-     quadrature of its own level, which is not loadq for data with finer-level kinks
-     (see the finding reported by the tie).
-   - Schoenberg-Whitney (the Greville points of every open knot vector are unisolvent):
-     checked per case by the exact inverse (Examples.v, tie), not proved in general.
+   - the hierarchical conjunct for the load vector the code assembles (see the note after the
+     hspace _partial theorems above).
+   - Schoenberg-Whitney for degree >= 2 (the Greville points of every open knot vector are unisolvent:
+     needs total positivity of the collocation matrix); proved: the necessary condition for every
+     degree and unisolvence for degree <= 1; degree >= 2 is checked per case by the exact inverse
+     (Examples.v, tie).
    - convergence of CG: outside the model. *)
